@@ -698,10 +698,11 @@ class Merge(MultiCrossBlock):
         crossing_weights = []
         constraints = constraints + []
         for b in blocks:
-            for f in b.design:
+            # Use the blocks as written by the user: weights are desugared again when this block is created
+            for f in b.orig_design:
                 if f not in design:
                     design.append(f)
-            for c in b.crossings:
+            for c in b.orig_crossings:
                 crossings.append(c)
             for count in b.crossing_sustain_counts:
                 crossing_sustain_counts.append(count)
